@@ -588,6 +588,11 @@ def exhaustive_cases(full):
         [utt("a", 3, ali=False)], [], [utt("a", 0, ref=ref2([[0, 0, 0]]))],
         [utt("a", 3, ali=T("int64", [3], [1, 1, 1])), utt("b", 2, ali=T("int64", [2], [1, 0]))],
         [utt("a", 2, ali=T("int64", [2], [100, 9]), ref=ref1([100]))],
+        [utt("a", 2, ali=T("int64", [2], [9, 0]), ref=ref1([9, 9]))],
+        [utt("a", 2, ali=T("int64", [2], [10, 10]), ref=ref1([10]))],
+        [utt("a", 2, ali=T("int64", [2], [99, 9]), ref=ref2([[99, 0, 1]]))],
+        [utt("a", 1, ali=T("int64", [1], [1]), ref=ref1([1]))],
+        [utt("a", 1, ali=T("int64", [1], [0]), ref=ref1([0]))],
     ]
     for dset, (strict, fx) in itertools.product(stats, [(False, None), (True, None), (False, 1)]):
         cases.append(mkcase(dset, [CLI(strict, fx)]))
@@ -613,12 +618,15 @@ def exhaustive_cases(full):
         cases.append(mkcase(us, [V(None), V(1), CLI(True, None)], prefix=pre, suffix=suf, decoys=decoys))
         cases.append(mkcase(us + [utt("c", 3, ali=bad_ali, ref=ref1([0]))], [V(None), CLI(False, None)], prefix=pre,
                             suffix=suf, subset=["a", "b", "nope"]))
+        for ops in ([CLI(True, None)], [V(None)], [CLI(False, 1)], [CLI(False, 2), V(None)], [V(2), CLI(True, None)]):
+            cases.append(mkcase(us + [utt("c", 3, ali=bad_ali, ref=ref1([0]))], ops, prefix=pre, suffix=suf,
+                                decoys=decoys[:1]))
     if not full:
-        # the quick tier keeps every third of the two big sweeps, everything else whole
+        # the quick tier keeps half of the two big sweeps, everything else whole
         n1 = 4 * 7 * len(FIXES)
         n2 = 3 * len(rng_b) ** 2 * 5
-        keep = [c for i, c in enumerate(cases[:n1]) if i % 3 == 0]
-        keep += [c for i, c in enumerate(cases[n1:n1 + n2]) if i % 3 == 1]
+        keep = [c for i, c in enumerate(cases[:n1]) if i % 2 == 0]
+        keep += [c for i, c in enumerate(cases[n1:n1 + n2]) if i % 2 == 1]
         cases = keep + cases[n1 + n2:]
     return cases
 
@@ -704,6 +712,15 @@ def random_dir_case(rng, flavour):
         else:
             ops.append(V(rng.choice(fixes)))
     ops = [_sane_op(utts, op) for op in ops]
+    extra = {}
+    if rng.random() < .25:
+        pre, suf = rng.choice(["", "p_", "ab"]), rng.choice([".pt", ".pt", ".x", ""])
+        extra = {"prefix": pre, "suffix": suf}
+        if rng.random() < .5:
+            extra["decoys"] = [{"sub": rng.choice(["feat", "ali", "ref"]) if (has_ali and has_ref) else "feat",
+                                "name": pre + "zz" + str(rng.randint(0, 9)) + suf, "tensor": T("int32", [7], [1] * 7)}]
+        if rng.random() < .3 and not any(op["api"] == "cli" for op in ops):
+            extra["subset"] = [u["id"] for u in utts if rng.random() < .7] or ["nope"]
     cfg = {}
     r = rng.random()
     if r < .15:
@@ -712,7 +729,7 @@ def random_dir_case(rng, flavour):
         cfg = {"tokens_only": True}
     elif r < .23:
         cfg = {"suppress_alis": True}
-    return mkcase(utts, ops, cfg=cfg, stream="random-" + flavour)
+    return mkcase(utts, ops, cfg=cfg, stream="random-" + flavour, **extra)
 
 
 def malformed_case(rng):
@@ -775,19 +792,19 @@ def gen_cases(chk):
         "5 tolerances; 9 dtypes x {feat,ali,ref 1-D,ref 2-D} x {strict,fix}; all sequences of 2-3 reference shapes out of 9; "
         "7x7 feature shapes; 6 alignment shapes; 7 command-line flag settings x 3 directories; 13 statistics corner "
         "cases; 10 references x 7 data-set option sets x 3 tolerances; 6 prefix/suffix settings with decoy files and "
-        "subsets; each followed by a strict re-validation" + ("" if full else " [quick tier: a third of the two big sweeps]"))
+        "subsets; each followed by a strict re-validation" + ("" if full else " [quick tier: half of the two big sweeps]"))
     for c in vlib.load_corpus("C12"):
         c = dict(c.get("case", c))
         c["stream"] = "corpus"
         cases.append(c)
     rng = chk.rng
-    nrand = 12000 if full else 700
+    nrand = 12000 if full else 1600
     for i in range(nrand):
         fl = ("valid", "light", "light", "heavy")[i % 4]
         cases.append(random_dir_case(rng, fl))
-    for _ in range(1500 if full else 120):
+    for _ in range(1500 if full else 200):
         cases.append(malformed_case(rng))
-    cases += rw_cases(rng, 3000 if full else 250)
+    cases += rw_cases(rng, 3000 if full else 400)
     return cases
 
 
@@ -835,9 +852,10 @@ def signature_fn(entry, record):
 
 COMPONENTS = ["validation (raise/return and directory afterwards)", "report (all keys but total_tokens, rcount_*)",
               "report total_tokens", "report rcount_<i>"]
-THEOREMS = ["c12_strict_accepts_iff_wellformed", "c12_fix_accepts_iff_repairable", "c12_fix_result_is_repair",
-            "c12_fix_then_strict_passes", "c12_fix_idempotent", "c12_info_is_recount_partial",
-            "c12_sos_eos_wrap", "c12_strip_wrap_roundtrip"]
+THEOREMS = ["c12_strict_accepts_iff_wellformed", "c12_strict_never_writes", "c12_fix_accepts_iff_repairable",
+            "c12_fix_result_is_repair", "c12_fix_error_partial", "c12_fix_then_strict_passes", "c12_valid_never_touched",
+            "c12_tolerance_exact_ali", "c12_tolerance_exact_ref", "c12_cli_like_validate",
+            "c12_cli_unvalidated_never_writes", "c12_info_is_recount_partial", "c12_info_after_fix_is_recount_partial"]
 
 
 class Judge:
@@ -926,7 +944,10 @@ def _judge_case(j, ci, case, r, bits):
         b = bits[0]
         if not all(b):
             j.concrete.append((ci, 0, {"case": {k: v for k, v in case.items() if k != "stream"}, "impl": r,
-                                        "bits": b, "theorems_at_stake": ["c12_sos_eos_wrap", "c12_strip_wrap_roundtrip",
+                                        "bits": b, "theorems_at_stake": ["c12_sos_eos_wrap_1d", "c12_sos_eos_wrap_2d",
+                                                                         "c12_sos_eos_wrap_tokens_only",
+                                                                         "c12_strip_wrap_roundtrip_1d",
+                                                                         "c12_strip_wrap_roundtrip_2d",
                                                                          "c12_write_hyp_strips"],
                                         "what": "_load_ref/_write_hyp output differs from the model, which is proved equal "
                                                 "to the spec (wrap / strip)"}))
